@@ -821,6 +821,27 @@ func gap6C09(g *Gen, tier string, res *GenOutput) {
 		res.Hists = append(res.Hists, RunHist("export-after-a-failed-export", []Frame{a, b}, ops))
 		bump(res.Stats, "export-after-a-failed-export")
 	}
+	// the other ways an export or import can fail for reasons outside the frame: a file that cannot be created or
+	// opened (must be reported), a sink that fills up after 7 or after 5000 bytes, a writer that reports short
+	// writes; on a small frame, a frame beyond the writer's buffer, and a one-column frame of empty strings
+	long := Col{Key: "t", Name: "t"}
+	num := Col{Key: "n", Name: "n"}
+	for i := 0; i < scale(tier, 400, 1500); i++ {
+		long.Data = append(long.Data, StrCell(fmt.Sprintf("value number %d, with a comma", i)))
+		num.Data = append(num.Data, IntCell("int", int64(i)))
+	}
+	big := mkFrame(long, num)
+	empties := mkFrame(strCol("e", "", "", ""))
+	for fi, f := range []Frame{a, big, empties} {
+		ops := []Op{}
+		for n := 1; n <= 5; n++ {
+			ops = append(ops, Op{K: "iofail", F: 0, N: int64(n)}, Op{K: "tocsv", F: 0})
+		}
+		ops = append(ops, Op{K: "iofail", F: 0}, Op{K: "iofail", F: 0, ViaFile: true}, Op{K: "csvroundtrip", F: 0}, Op{K: "csvroundtrip", F: 1})
+		res.Hists = append(res.Hists, RunHist("io-failures-of-every-kind", []Frame{f, b}, ops))
+		bump(res.Stats, "io-failures-of-every-kind")
+		_ = fi
+	}
 }
 
 // C15: floats a hair away from an integer (truncation, never rounding); a fill value keeps its own type
